@@ -25,6 +25,7 @@ type c08Case struct {
 	Massive  bool          `json:"massive,omitempty"`
 	Drop     []int         `json:"drop,omitempty"`     // pre-order indexes of node paths removed (with their subtrees)
 	AsFile   []int         `json:"asFile,omitempty"`   // pre-order indexes of node paths present as regular files
+	Hard     bool          `json:"hard,omitempty"`     // node paths present as files are hard links of one another (and of extra files of kind "h")
 	Extra    []ops.FSEntry `json:"extra,omitempty"`    // extra entries, relative to the target
 	History  string        `json:"history,omitempty"`  // "", mkdir (state produced by Mkdir of the same forest with Exts)
 	NoTarget bool          `json:"noTarget,omitempty"` // the target directory itself does not exist
@@ -64,6 +65,9 @@ func c08State(c c08Case) []ops.FSEntry {
 		}
 		if asFile[e.Path] {
 			e.Kind = "f"
+			if c.Hard {
+				e.Kind = "h" // regular files that are further names of one file
+			}
 			filePrefixes = append(filePrefixes, e.Path)
 		}
 		pre = append(pre, e)
@@ -474,6 +478,7 @@ func c08Gen() *rapid.Generator[c08Case] {
 		c.Drop = rapid.SliceOfN(rapid.IntRange(0, n-1), 0, 3).Draw(t, "drop")
 		if rapid.IntRange(0, 3).Draw(t, "flip") == 0 {
 			c.AsFile = []int{rapid.IntRange(0, n-1).Draw(t, "asFile")}
+			c.Hard = rapid.Bool().Draw(t, "hardLinks")
 		}
 		paths, _ := nodePaths(f)
 		ne := rapid.IntRange(0, 3).Draw(t, "nextra")
@@ -486,7 +491,7 @@ func c08Gen() *rapid.Generator[c08Case] {
 				base = paths[rapid.IntRange(0, len(paths)-1).Draw(t, "under")] + "/"
 			}
 			name := rapid.SampledFrom([]string{"~x", "~y/z", "~.hidden", "~x y", "~x\xffy", "~\xc3", "~%s", "~a\\b"}).Draw(t, "xname")
-			kind := rapid.SampledFrom([]string{"d", "f"}).Draw(t, "xkind")
+			kind := rapid.SampledFrom([]string{"d", "f", "f", "h"}).Draw(t, "xkind")
 			if !utf8.ValidString(name) {
 				kind = "f" // (a DIRECTORY with such a name makes the library's directory walk fail as a whole: an error either way)
 			}
